@@ -35,3 +35,9 @@ def run(ctx):
     S.r02_9_requiredness(ctx)
     R.r05_7_defaults(ctx, 'R02.10')
     S.r04_5_strip_tags(ctx, 'R02.11')
+    from . import round3 as R3
+    R3.r01_10_tree_untouched(ctx, 'R02.12')
+    R3.r02_13_init_arguments(ctx)
+    from . import errors as E
+    E.r08_3_implicit(ctx, 'R02.14')
+    E.r08_2_user_code(ctx, 'R02.15')
